@@ -951,6 +951,9 @@ fn check_law(fam: &str, args: &[Arg], tag: &str, ext: bool) -> Vec<Finding> {
             let masstag = if (v[0] - 1.0).abs() > 1e-10 { " (total mass != 1)" } else { "" };
             push!(MOM[i], &format!("!= {}{}", unit, masstag), &what, format!("reported {} ; {} = {} (quadrature error <= {:e})", hx(r), unit, hx(iv), ie), &format!("|reported - {}| <= max(1e-6 relative, 1e-9{})", unit, if extra > 0.0 { format!(", documented truncation {:e}", extra) } else { String::new() }));
         } else if cert && 10.0 * ie <= t {
+            if std::env::var("C07_STATS").is_ok() {
+                eprintln!("OK {} {} r={:e} iv={:e} ie={:e} t={:e}", fam, MOM[i], r, iv, ie, t);
+            }
             JUDGED.fetch_add(1, Ordering::Relaxed);
         } else {
             if std::env::var("C07_STATS").is_ok() {
